@@ -374,39 +374,37 @@ func runC25(c *Ctx) {
 			}
 			q := b.Build()
 			snapshot := coqQueryOf(q)
-			// a second builder over the same caller-owned expressions, with further conditions chained on:
-			// the first query must not change (no shared backing arrays)
+			// other builders over the same caller-owned expressions, diverging right after the last
+			// Match / MatchRegex: the first query must not change (no shared backing arrays)
 			{
-				b2 := bs.NewQuery()
-				for _, f := range replay {
-					f(b2)
+				lastB, lastR := -1, -1
+				for j, nm := range callNames {
+					if nm == "Match" {
+						lastB = j
+					}
+					if nm == "MatchRegex" {
+						lastR = j
+					}
 				}
-				b2.Token("zz-other").Field("zz.other").FieldRegex("zz", "other")
-				q2 := b2.Build()
-				b3 := bs.NewQuery()
-				for _, f := range replay {
-					f(b3)
+				for _, cut := range []int{lastB, lastR, len(replay) - 1} {
+					if cut < 0 {
+						continue
+					}
+					b2 := bs.NewQuery()
+					for _, f := range replay[:cut+1] {
+						f(b2)
+					}
+					b2.Token("zz-other").Field("zz.other").FieldRegex("zz", "other")
+					b2.Build()
+					b3 := bs.NewQuery()
+					for _, f := range replay[:cut+1] {
+						f(b3)
+					}
+					b3.FieldToken("yy", "third").FieldRegex("yy", "third")
+					b3.Build()
 				}
-				b3.Token("yy-third").FieldRegex("yy", "third")
-				q3 := b3.Build()
-				_ = q3
 				if coqQueryOf(q) != snapshot {
 					c.violation("c25-builder-aliasing", "a built query changed when the same expressions were used in another builder", map[string]any{"calls": callNames, "before": snapshot, "after": coqQueryOf(q)})
-				}
-				// and the second builder means its own conjunction: q2 = q AND zz-other AND zz.other AND regex
-				want2 := bs.NewQuery()
-				for _, f := range replay {
-					f(want2)
-				}
-				w2 := want2.Build()
-				_ = w2
-				chk := bs.NewQuery()
-				for _, f := range replay {
-					f(chk)
-				}
-				chk.Token("zz-other").Field("zz.other").FieldRegex("zz", "other")
-				if coqQueryOf(chk.Build()) != coqQueryOf(q2) {
-					c.violation("c25-builder-aliasing", "the same builder chain produced two different queries", map[string]any{"calls": callNames})
 				}
 			}
 			term := fmt.Sprintf("CBuild %s %s", coqList(calls), snapshot)
